@@ -232,6 +232,13 @@ fn main() {
     // Part 2: token stream
     let tsigma = ['a', '1', 'A', 'あ', '亜', '-', '\r', '\n', '\u{200d}', '👨', '𠀋', '\0'];
     let texts: Vec<String> = gen::strings(&tsigma, 0, tier.pick(4, 5)).iter().map(|t| gen::s(t)).collect();
+    // plus long texts (40 and 150 characters): rotations of the alphabet (NUL excluded) and runs
+    let mut texts = texts;
+    for rot in 0..tsigma.len() - 1 {
+        for len in [40usize, 150] {
+            texts.push((0..len).map(|i| tsigma[(i * (rot + 1) + rot) % (tsigma.len() - 1)]).collect());
+        }
+    }
     let wss: Vec<String> = gen::strings(&['D', 'R', 'H', 'T', 'K', 'O', 'G'], 0, tier.pick(2, 3)).iter().map(|t| gen::s(t)).collect();
     chk.set("stream_texts", json!(texts.len()));
     chk.set("wsconst_strings", json!(wss.len()));
